@@ -337,6 +337,9 @@ func (g *G) version() (*built, string) {
 	case 1:
 		p.w(make([]byte, 8))
 		dyn = "ver_ournonce"
+	case 2: // the nonce of another, established connection (the bystander of the case, if there is one)
+		p.w(make([]byte, 8))
+		dyn = "ver_peernonce"
 	default:
 		p.w(g.bytesN(8, 8))
 	}
